@@ -298,3 +298,5 @@ def run_thorough(ctx):
     # the cfg(windows) sibling implementation, analysed on the windows-msvc build
     import winrules
     winrules.c01_threads_do_the_io(ctx)
+    import wincomm
+    wincomm.c01_protocol(ctx)
